@@ -343,7 +343,7 @@ def aeropoint_level(rep, tier, timeout):
         def rp(ob, env, surfaces=surfaces, meshes=meshes, npan=npan):
             if ob.meta["kind"] == "L":
                 return None, "group-level lift/drag: replay through the force comparison"
-            return replay(ob, env, surfaces, meshes, npan)
+            return replay(ob, env, surfaces, meshes, npan, through_aeropoint=True)
 
         nominal = {}
         for s_ in surfaces:
@@ -426,7 +426,9 @@ def numeric_reference(surfaces, meshv, alpha, beta, v, omega, cg):
     return A, b, {"Vf": Vf, "onset": onset, "bound": bound, "prev": prev}
 
 
-def replay(ob, env, surfaces, meshes, npan):
+def replay(ob, env, surfaces, meshes, npan, through_aeropoint=False):
+    if through_aeropoint:
+        return replay_aeropoint(ob, env, surfaces, meshes, npan)
     import openmdao.api as om
     from openaerostruct.aerodynamics.geometry import VLMGeometry
     from openaerostruct.aerodynamics.states import VLMStates
@@ -478,6 +480,42 @@ def replay(ob, env, surfaces, meshes, npan):
         ref = float(envf["rho"]) * ghs * np.cross(V, aux["bound"][r])[c3]
         got = np.array(prob.get_val("panel_forces"))[r, c3]
         return model.differs(got, ref, 1e-6), "real panel_forces[%d,%d] = %.9g, rho * Gamma_hs * (V x l) of the independent model = %.9g" % (r, c3, got, ref)
+    return None, "no replay"
+
+
+def replay_aeropoint(ob, env, surfaces, meshes, npan):
+    """the real AeroPoint group on floats (flight condition set at the point level, as a user does) against the
+    independent numeric Biot-Savart model"""
+    from props import groups
+
+    envf = model.FillEnv(env)
+    for k_ in ("alpha", "beta", "v", "rho"):
+        if k_ + "[0]" in envf and k_ not in envf:
+            envf[k_] = envf[k_ + "[0]"]
+    if abs(envf.get("beta", 0.0)) < 1e-3:
+        envf["beta"] = 6.0  # a sideslip witness: the point-level beta must reach the solve
+    meshv = {n: num_inputs({"m": m}, envf)["m"] for n, m in meshes.items()}
+    omega = np.array([envf["omega[%d]" % k] for k in range(3)])
+    cg = np.array([envf["cg[%d]" % k] for k in range(3)])
+    prob = groups.aeropoint_problem(surfaces, rotational=True, meshes=meshv,
+                                    vals={"alpha": float(envf["alpha"]), "beta": float(envf["beta"]), "v": float(envf["v"]), "rho": float(envf["rho"]), "omega": omega, "cg": cg})
+    prob.run_model()
+    A, b, aux = numeric_reference(surfaces, meshv, envf["alpha"], envf["beta"], envf["v"], omega, cg)
+    P = "aero_point_0.aero_states."
+    gam = np.array(prob.get_val(P + "circulations"))
+    k = ob.meta["kind"]
+    if k == "res":
+        res = A.dot(gam) - b
+        r = int(np.argmax(np.abs(res)))
+        return abs(res[r]) > 1e-6 * (1 + abs(b[r])), "real AeroPoint at alpha=%.3g beta=%.3g deg: normal velocity of the independent model at collocation point %d with the real circulations = %.3g" % (
+            envf["alpha"], envf["beta"], r, res[r])
+    if k == "F":
+        r, c3 = ob.meta["idx"]
+        ghs = gam[r] - (gam[aux["prev"][r]] if aux["prev"][r] >= 0 else 0.0)
+        V = aux["onset"][r] + np.einsum("ck,c->k", aux["Vf"][r], gam)
+        ref = float(envf["rho"]) * ghs * np.cross(V, aux["bound"][r])[c3]
+        got = np.array(prob.get_val(P + "panel_forces"))[r, c3]
+        return model.differs(got, ref, 1e-6), "real AeroPoint panel_forces[%d,%d] = %.9g, rho * Gamma_hs * (V x l) of the independent model = %.9g" % (r, c3, got, ref)
     return None, "no replay"
 
 
